@@ -14,7 +14,16 @@ pub enum BOp {
     WriteF { w: u8, be: bool, h: i64, off: i64, lit: &'static str },
     Copy(i64, i64, i64, i64, i64),
     Fill(i64, i64, i64, i64),
+    Clone(i64),
+    Equals(i64, i64),
+    FromString(&'static str),
+    Decode(i64, i64, i64),
+    WriteString(i64, i64, &'static str),
+    Find(i64, i64, i64, i64),
+    Reverse(i64, i64, i64),
+    Swap(i64, i64, i64),
 }
+const STRINGS: [&str; 8] = ["", "a", "hello", "Meow 42", "h\u{e9}llo", "\u{65e5}\u{672c}", "x y z", "\u{1F600}!"];
 
 const MAX_ALLOC: i64 = 256 * 1024 * 1024; // only used to pick "too large" sizes; the model takes the real constant from the source
 const FLOATS: [&str; 8] = ["0.0", "0.5", "1.5", "2.25", "1234567.875", "0.1", "100000000000000000000.0", "3.0"];
@@ -34,8 +43,18 @@ fn src(op: &BOp) -> String {
         BOp::WriteF { w, be, h, off, lit } => format!("{}({}, {}, {})", acc_name("write", 'f', *w, *be), h, off, lit),
         BOp::Copy(a, b, c, d, e) => format!("bytes.copy({}, {}, {}, {}, {})", a, b, c, d, e),
         BOp::Fill(a, b, c, d) => format!("bytes.fill({}, {}, {}, {})", a, b, c, d),
+        BOp::Clone(h) => format!("bytes.clone({})", h),
+        BOp::Equals(a, b) => format!("bytes.equals({}, {})", a, b),
+        BOp::FromString(t) => format!("bytes.from_string(\"{}\")", t),
+        BOp::Decode(h, o, l) => format!("bytes.decode({}, {}, {})", h, o, l),
+        BOp::WriteString(h, o, t) => format!("bytes.write_string({}, {}, \"{}\")", h, o, t),
+        BOp::Find(h, a, b, n) => format!("bytes.find({}, {}, {}, {})", h, a, b, n),
+        BOp::Reverse(h, o, l) => format!("bytes.reverse({}, {}, {})", h, o, l),
+        BOp::Swap(h, i, j) => format!("bytes.swap({}, {}, {})", h, i, j),
     }
 }
+
+fn coq_bytes(t: &str) -> String { format!("[{}]", t.as_bytes().iter().map(|b| b.to_string()).collect::<Vec<_>>().join("; ")) }
 
 fn coq(op: &BOp) -> String {
     let z = |n: i64| zc(n as i128);
@@ -50,6 +69,14 @@ fn coq(op: &BOp) -> String {
         BOp::WriteF { w, be, h, off, lit } => format!("BWriteF {} {} {} {} {}", w, b(*be), z(*h), z(*off), lit.parse::<f64>().unwrap().to_bits()),
         BOp::Copy(a, bb, c, d, e) => format!("BCopy {} {} {} {} {}", z(*a), z(*bb), z(*c), z(*d), z(*e)),
         BOp::Fill(a, bb, c, d) => format!("BFill {} {} {} {}", z(*a), z(*bb), z(*c), z(*d)),
+        BOp::Clone(h) => format!("BClone {}", z(*h)),
+        BOp::Equals(a, bb) => format!("BEquals {} {}", z(*a), z(*bb)),
+        BOp::FromString(t) => format!("BFromString {}", coq_bytes(t)),
+        BOp::Decode(h, o, l) => format!("BDecode {} {} {}", z(*h), z(*o), z(*l)),
+        BOp::WriteString(h, o, t) => format!("BWriteString {} {} {}", z(*h), z(*o), coq_bytes(t)),
+        BOp::Find(h, a, bb, n) => format!("BFind {} {} {} {}", z(*h), z(*a), z(*bb), z(*n)),
+        BOp::Reverse(h, o, l) => format!("BReverse {} {} {}", z(*h), z(*o), z(*l)),
+        BOp::Swap(h, i, j) => format!("BSwap {} {} {}", z(*h), z(*i), z(*j)),
     }
 }
 
@@ -58,7 +85,7 @@ fn coq(op: &BOp) -> String {
 struct RefB { live: BTreeMap<i64, Vec<u8>>, dead: BTreeSet<i64> }
 
 #[derive(Debug, PartialEq, Clone)]
-enum Want { Err, Unit, Int(i64), Word(u64), FreshHandle, Any }
+enum Want { Err, Unit, Int(i64), Word(u64), FreshHandle, FreshHandleWith(Vec<u8>), Str(Vec<u8>), Any }
 
 fn range_of(w: u8, sg: bool) -> (i64, i64) {
     match (w, sg) {
@@ -127,12 +154,38 @@ fn ref_step(r: &mut RefB, op: &BOp) -> Want {
             if *len == 0 { return Want::Any; }
             match r.live.get_mut(h) { Some(d) => match span(d, *off, *len) { Some((a, b)) => { for x in &mut d[a..b] { *x = *v as u8; } Want::Unit } None => Want::Err }, None => Want::Err }
         }
+        BOp::Clone(h) => match r.live.get(h) { Some(d) => Want::FreshHandleWith(d.clone()), None => Want::Err },
+        BOp::Equals(a, b) => match (r.live.get(a), r.live.get(b)) { (Some(x), Some(y)) => Want::Word(Value::bool(x == y).raw_bits()), _ => Want::Err },
+        BOp::FromString(t) => Want::FreshHandleWith(t.as_bytes().to_vec()),
+        BOp::Decode(h, off, len) => match r.live.get(h) {
+            Some(d) => match span(d, *off, *len) { Some((a, b)) => match std::str::from_utf8(&d[a..b]) { Ok(t) => Want::Str(t.as_bytes().to_vec()), Err(_) => Want::Err }, None => Want::Err },
+            None => Want::Err },
+        BOp::WriteString(h, off, t) => match r.live.get_mut(h) {
+            Some(d) => match span(d, *off, t.len() as i64) { Some((a, b)) => { d[a..b].copy_from_slice(t.as_bytes()); Want::Int(t.len() as i64) } None => Want::Err },
+            None => Want::Err },
+        BOp::Find(h, start, stop, needle) => {
+            if *start < 0 || *needle < 0 || *needle > 255 { return Want::Err; }
+            match r.live.get(h) { Some(d) => {
+                let e = if *stop < 0 { d.len() as i64 } else { (*stop).min(d.len() as i64) };
+                if *start >= e { Want::Int(-1) } else { Want::Int(d[*start as usize..e as usize].iter().position(|x| *x == *needle as u8).map(|p| p as i64 + *start).unwrap_or(-1)) } }
+                None => Want::Err }
+        }
+        BOp::Reverse(h, off, len) => {
+            if *len < 0 || *off < 0 || *h < 0 { return Want::Err; }
+            if *len == 0 { return Want::Any; }
+            match r.live.get_mut(h) { Some(d) => match span(d, *off, *len) { Some((a, b)) => { d[a..b].reverse(); Want::Unit } None => Want::Err }, None => Want::Err }
+        }
+        BOp::Swap(h, i, j) => match r.live.get_mut(h) {
+            Some(d) if *i >= 0 && *j >= 0 && (*i as usize) < d.len() && (*j as usize) < d.len() => { d.swap(*i as usize, *j as usize); Want::Unit }
+            _ => Want::Err },
     }
 }
 
 fn op_kind(op: &BOp) -> &'static str {
     match op { BOp::Alloc(_) => "alloc", BOp::Free(_) => "free", BOp::Size(_) => "size", BOp::Resize(..) => "resize", BOp::Read { .. } => "read",
-               BOp::Write { .. } => "write", BOp::WriteF { .. } => "write_f", BOp::Copy(..) => "copy", BOp::Fill(..) => "fill" }
+               BOp::Write { .. } => "write", BOp::WriteF { .. } => "write_f", BOp::Copy(..) => "copy", BOp::Fill(..) => "fill",
+               BOp::Clone(_) => "clone", BOp::Equals(..) => "equals", BOp::FromString(_) => "from_string", BOp::Decode(..) => "decode",
+               BOp::WriteString(..) => "write_string", BOp::Find(..) => "find", BOp::Reverse(..) => "reverse", BOp::Swap(..) => "swap" }
 }
 
 
@@ -154,6 +207,14 @@ fn parse_bops(text: &str) -> Vec<BOp> {
             "resize" => BOp::Resize(i(0), i(1)),
             "copy" => BOp::Copy(i(0), i(1), i(2), i(3), i(4)),
             "fill" => BOp::Fill(i(0), i(1), i(2), i(3)),
+            "clone" => BOp::Clone(i(0)),
+            "equals" => BOp::Equals(i(0), i(1)),
+            "from_string" => BOp::FromString(STRINGS.iter().find(|t| format!("\"{}\"", t) == args[0]).copied().expect("known string literal")),
+            "decode" => BOp::Decode(i(0), i(1), i(2)),
+            "write_string" => BOp::WriteString(i(0), i(1), STRINGS.iter().find(|t| format!("\"{}\"", t) == args[2]).copied().expect("known string literal")),
+            "find" => BOp::Find(i(0), i(1), i(2), i(3)),
+            "reverse" => BOp::Reverse(i(0), i(1), i(2)),
+            "swap" => BOp::Swap(i(0), i(1), i(2)),
             _ => {
                 let (rw, rest) = name.split_once('_').expect("accessor name");
                 let be = rest.ends_with("_be");
@@ -187,6 +248,21 @@ fn gen_bop(rng: &mut Rng, r: &RefB, f32ok: bool, dist: &mut Dist) -> BOp {
         if live.is_empty() || (live.len() < 5 && rng.chance(1, 6)) { dist.hit("valid:alloc"); return BOp::Alloc(rng.range_i64(1, 24)); }
         let h = *rng.pick(&live);
         let len = r.live[&h].len() as i64;
+        if rng.chance(1, 5) {
+            // the rest of the API: clone / equals / strings / find / reverse / swap
+            let other = *rng.pick(&live);
+            return match rng.below(9) {
+                0 => { dist.hit("valid:clone"); if live.len() < 6 { BOp::Clone(h) } else { BOp::Equals(h, other) } }
+                1 => { dist.hit("valid:equals"); BOp::Equals(h, other) }
+                2 => { dist.hit("valid:from_string"); if live.len() < 6 { BOp::FromString(*rng.pick(&STRINGS)) } else { BOp::Equals(other, h) } }
+                3 => { dist.hit("valid:decode"); let n = rng.range_i64(0, len.min(12)); BOp::Decode(h, rng.range_i64(0, len - n), n) }
+                4 => { let t = *rng.pick(&STRINGS); if (t.len() as i64) > len { dist.hit("valid:decode"); BOp::Decode(h, 0, 0) } else { dist.hit("valid:write_string"); BOp::WriteString(h, rng.range_i64(0, len - t.len() as i64), t) } }
+                5 | 6 => { dist.hit("valid:find"); let st = rng.range_i64(0, len); let needle = if len > 0 && rng.chance(2, 3) { r.live[&h][rng.below(len as u64) as usize] as i64 } else { rng.range_i64(0, 255) };
+                           let mid = rng.range_i64(0, len.max(1)); BOp::Find(h, st, *rng.pick(&[-1i64, len, len + 5, mid, 0]), needle) }
+                7 => { dist.hit("valid:reverse"); let n = rng.range_i64(0, len); BOp::Reverse(h, rng.range_i64(0, len - n), n) }
+                _ => { if len == 0 { dist.hit("valid:find"); BOp::Find(h, 0, -1, 0) } else { dist.hit("valid:swap"); BOp::Swap(h, rng.below(len as u64) as i64, rng.below(len as u64) as i64) } }
+            };
+        }
         loop {
             match rng.below(20) {
                 0 => { dist.hit("valid:free"); return BOp::Free(A::I(h as i128)); }
@@ -227,7 +303,13 @@ fn gen_bop(rng: &mut Rng, r: &RefB, f32ok: bool, dist: &mut Dist) -> BOp {
     if live.is_empty() || k <= 4 {
         let h = bad_h(rng, dist);
         let (w, sg, be) = pick_acc(rng);
-        return match rng.below(6) {
+        return match rng.below(12) {
+            6 => BOp::Clone(h),
+            7 => { let g = live.first().cloned().unwrap_or(0); if rng.chance(1, 2) { BOp::Equals(h, g) } else { BOp::Equals(g, h) } }
+            8 => BOp::Decode(h, 0, rng.range_i64(0, 1)),
+            9 => BOp::WriteString(h, 0, *rng.pick(&STRINGS)),
+            10 => BOp::Find(h, 0, -1, 0),
+            11 => if rng.chance(1, 2) { BOp::Reverse(h, 0, rng.range_i64(0, 2)) } else { BOp::Swap(h, 0, 0) },
             0 => BOp::Read { w, kind: sg as u8, be, h, off: 0 },
             1 => BOp::Write { w, sg, be, h, off: 0, v: 1 },
             2 => BOp::Size(h),
@@ -248,6 +330,18 @@ fn gen_bop(rng: &mut Rng, r: &RefB, f32ok: bool, dist: &mut Dist) -> BOp {
             _ => { dist.hit("malformed:offset-negative"); -rng.range_i64(1, 9) }
         }
     };
+    if rng.chance(1, 4) {
+        dist.hit("malformed:other-api");
+        return match rng.below(7) {
+            0 => BOp::Decode(h, bad_off(rng, dist, 1), 1),
+            1 => { let al = alias_of(rng, 1, true) as i64; BOp::Decode(h, 0, *rng.pick(&[len + 1, -1, al])) }
+            2 => { let t = *rng.pick(&STRINGS[1..]); BOp::WriteString(h, bad_off(rng, dist, t.len() as i64), t) }
+            3 => BOp::Find(h, *rng.pick(&[-1i64, -5]), -1, 0),
+            4 => BOp::Find(h, 0, -1, *rng.pick(&[-1i64, 256, 1000])),
+            5 => BOp::Reverse(h, bad_off(rng, dist, 2), 2),
+            _ => if rng.chance(1, 2) { BOp::Swap(h, bad_off(rng, dist, 1), 0) } else { BOp::Swap(h, 0, bad_off(rng, dist, 1)) },
+        };
+    }
     match k {
         5 | 6 => BOp::Read { w, kind: sg as u8, be, h, off: bad_off(rng, dist, w as i64) },
         7 | 8 => BOp::Write { w, sg, be, h, off: bad_off(rng, dist, w as i64), v: val_in(rng, w, sg) },
@@ -256,11 +350,11 @@ fn gen_bop(rng: &mut Rng, r: &RefB, f32ok: bool, dist: &mut Dist) -> BOp {
                if (w as i64) > len { BOp::Fill(h, 0, 1, 256) } else { BOp::Write { w, sg, be, h, off: rng.range_i64(0, len - w as i64), v } } }
         10 => { dist.hit("malformed:copy"); let d = *rng.pick(&live); let dl = r.live[&d].len() as i64;
                 match rng.below(7) { 0 => BOp::Copy(h, 0, d, 0, len.max(dl) + 1), 1 => BOp::Copy(h, len - 1, d, 0, 2), 2 => BOp::Copy(h, 0, d, dl - 1, 2), 3 => BOp::Copy(h, 0, d, 0, -1),
-                    4 => { dist.hit("malformed:length-alias-of-valid"); BOp::Copy(h, 0, d, 0, { let k0 = rng.range_i64(1, len.min(dl)) as i128; alias_of(rng, k0, true) } as i64) }
+                    4 => { dist.hit("malformed:length-alias-of-valid"); BOp::Copy(h, 0, d, 0, { let k0 = rng.range_i64(1, len.min(dl).max(1)) as i128; alias_of(rng, k0, true) } as i64) }
                     5 => { dist.hit("malformed:offset-alias-of-valid"); BOp::Copy(h, { let k0 = 0; alias_of(rng, k0, true) } as i64, d, 0, 1) }
                     _ => { dist.hit("malformed:offset-alias-of-valid"); BOp::Copy(h, 0, d, { let k0 = 0; alias_of(rng, k0, true) } as i64, 1) } } }
         _ => { dist.hit("malformed:fill-resize"); match rng.below(6) { 0 => BOp::Fill(h, len - 1, 2, 1), 1 => BOp::Fill(h, 0, -1, 1), 2 => BOp::Resize(h, *rng.pick(&[0i64, -1, MAX_ALLOC + 1])),
-                    3 => { dist.hit("malformed:length-alias-of-valid"); BOp::Fill(h, 0, { let k0 = rng.range_i64(1, len) as i128; alias_of(rng, k0, true) } as i64, 1) }
+                    3 => { dist.hit("malformed:length-alias-of-valid"); BOp::Fill(h, 0, { let k0 = rng.range_i64(1, len.max(1)) as i128; alias_of(rng, k0, true) } as i64, 1) }
                     4 => { dist.hit("malformed:alloc-size-alias-of-small"); BOp::Resize(h, ({ let k0 = rng.range_i64(1, 16) as i128; alias_of(rng, k0, true) } as i64).max(1 << 32)) }
                     _ => BOp::Fill(h, bad_off(rng, dist, 1), 1, 1) } }
     }
@@ -291,11 +385,14 @@ pub fn main(seed: u64, hist: u64, maxlen: u64, replay: Option<String>, dist: &mu
                 println!("!HARNESS\tinput `{}` (opt {}) -> class {}: {}", text, opt, c, detail.replace('\n', " ").replace('\t', " "));
             }
             let v = Value::from_raw(bits);
+            let mut decoded: Vec<u8> = Vec::new();
             // canonical observation: 0 int, 1 unit, 2 word, 9 error
             let (code, val): (i64, i128) = if c != OK_VAL { (9, 0) } else {
                 match &op {
-                    BOp::Alloc(_) | BOp::Size(_) => match v.as_int() { Some(n) => (0, n as i128), None => (2, bits as i128) },
-                    BOp::Read { .. } => (2, bits as i128),
+                    BOp::Alloc(_) | BOp::Size(_) | BOp::Clone(_) | BOp::FromString(_) | BOp::WriteString(..) | BOp::Find(..) => match v.as_int() { Some(n) => (0, n as i128), None => (2, bits as i128) },
+                    BOp::Read { .. } | BOp::Equals(..) => (2, bits as i128),
+                    BOp::Decode(..) => { let t = vm.value_to_string(v); decoded = t.as_bytes().to_vec();
+                        let mut acc: i128 = 1; for b in t.as_bytes().iter().rev() { acc = acc * 256 + *b as i128; } (3, acc) }
                     _ => if v.is_null() { (1, 0) } else { (2, bits as i128) },
                 }
             };
@@ -309,6 +406,12 @@ pub fn main(seed: u64, hist: u64, maxlen: u64, replay: Option<String>, dist: &mu
                 (Want::Unit, 1) => {}
                 (Want::Int(n), 0) if *n as i128 == val => {}
                 (Want::Word(w), 2) if *w as i128 == val => {}
+                (Want::Str(t), 3) if *t == decoded => {}
+                (Want::FreshHandleWith(d), 0) => {
+                    let h = val as i64;
+                    if h < 0 || r.live.contains_key(&h) { findings.push((i, sig("handle-not-fresh"), format!("`{}` returned live handle {}", text, h))); }
+                    else { r.dead.remove(&h); r.live.insert(h, d.clone()); }
+                }
                 (Want::FreshHandle, 0) => {
                     let h = val as i64;
                     if h < 0 || r.live.contains_key(&h) { findings.push((i, sig("handle-not-fresh"), format!("`{}` returned live handle {}", text, h))); }
